@@ -90,6 +90,9 @@ def make_cases(tier, seed):
         geom = [g for i, g in enumerate(geom) if g[0] != "ep-line" or i % 2 == seed % 2]
     for fam, fen in geom:
         cases.append({"kind": "probe:" + fam, "fen": fen, "moves": [], "deep": False})
+    epd = P.ep_discovered_check_families()
+    for fam, fen in (epd if tier != "quick" else epd[seed % 3::3]):
+        cases.append({"kind": "probe:" + fam, "fen": fen, "moves": [], "deep": False})
     for fam, fen in P.corner_rook_capture_families():
         # one ply of every legal move (the capture among them) and then every reply: "deep"
         cases.append({"kind": "probe:" + fam, "fen": fen, "moves": [], "deep": True})
